@@ -47,6 +47,7 @@ pub enum SOp {
     Unbuffer,
     Data(u16, LenSel),
     Heart,
+    PeerHeart,
 }
 
 #[derive(Clone, Debug, Serialize, Deserialize)]
@@ -73,6 +74,7 @@ fn resolve(ops: &[SOp], scheme: &SchemeGen) -> Vec<Op> {
             SOp::Open => Op::Open,
             SOp::Unbuffer => Op::Unbuffer,
             SOp::Heart => Op::Heart,
+            SOp::PeerHeart => Op::PeerHeart,
             // one call = one frame = one packet: payloads above 65535 are split into several packets by
             // the session (that is C01/C04's business), so C05 stays at or below one frame
             SOp::Data(i, LenSel::Abs(n)) => Op::Data(*i, (*n).min(65535)),
@@ -130,6 +132,7 @@ impl Family for ShapeFam {
             2 => Just(SOp::Unbuffer),
             6 => (any::<u16>(), len).prop_map(|(i, l)| SOp::Data(i, l)),
             1 => Just(SOp::Heart),
+            1 => Just(SOp::PeerHeart),
         ];
         (scheme(size_satisfiable(), 8), proptest::collection::vec(op, 0..12), any::<u64>())
             .prop_map(|(scheme, ops, draw_seed)| ShapeCase { scheme, ops, draw_seed })
@@ -362,6 +365,7 @@ impl Family for OrderFam {
             yields: case.yields.clone(),
             draw_seed: 1,
             stall: None,
+            monitor: None,
         };
         let run = c11::run_concurrent(&wc)?;
         c11::check_wire(&run)?;
